@@ -112,4 +112,11 @@ Theorem config_le_refines : CFConfigMoves___le__ q1 vs1 gg1 vt1 dd1 so q2 vs2 gg
 Proof. unfold CFConfigMoves___le__. rewrite comparable_refines. destruct comparable_b eqn:Ec; cbn [negb]; [|reflexivity].
   change (fold_left _ (so vt1) (PyOk (None, tt))) with (fold_left (retstep (cmp_body Z.gtb)) (so vt1) (PyOk (None, tt))).
   rewrite (cmp_loop Z.gtb Ec). f_equal. unfold cfg_le. apply forallb_ext. intros v. rewrite Z.gtb_ltb. symmetry. apply Z.leb_antisym. Qed.
+(* < and >: `self <= other and (not self == other)` - the second comparison is made only when the first answered True *)
+Theorem config_lt_refines : CFConfigMoves___lt__ q1 vs1 gg1 vt1 dd1 so q2 vs2 gg2 vt2 dd2 = if comparable_b then PyOk (cfg_lt g1 q1 D E) else PyExn tt.
+Proof. unfold CFConfigMoves___lt__. rewrite config_le_refines. destruct comparable_b eqn:Ec; [|reflexivity]. unfold cfg_lt.
+  destruct (cfg_le g1 q1 D E) eqn:El; [|reflexivity]. rewrite config_eq_refines, Ec. reflexivity. Qed.
+Theorem config_gt_refines : CFConfigMoves___gt__ q1 vs1 gg1 vt1 dd1 so q2 vs2 gg2 vt2 dd2 = if comparable_b then PyOk (cfg_lt g1 q1 E D) else PyExn tt.
+Proof. unfold CFConfigMoves___gt__. rewrite config_ge_refines. destruct comparable_b eqn:Ec; [|reflexivity]. unfold cfg_lt.
+  destruct (cfg_le g1 q1 E D) eqn:El; [|reflexivity]. rewrite config_eq_refines, Ec. cbn [andb]. f_equal. f_equal. unfold cfg_eq. apply forallb_ext. intros v. apply Z.eqb_sym. Qed.
 End ORD.
